@@ -368,7 +368,9 @@ Fixpoint handle_comment (all val : str) (rest : list anode) : result (str * str 
       end
   end.
 
-Definition a_comment (all val : str) : view := mkview KComment all KNone None (Ok (Some val)) None.
+(* XMLComment(NodeMixin, Comment): raw_val is NodeMixin's, the normalized value *)
+Definition a_comment (all val : str) : view :=
+  mkview KComment all KNone (Some val) (Ok (Some val)) None.
 Definition a_white (n : anode) : view :=
   mkview KWhitespace (n_xml n) (KStr (n_xml n)) (Some (n_value n)) (Ok (Some (n_value n))) None.
 
